@@ -400,12 +400,25 @@ impl Subscription {
     }
 
     async fn run(&mut self, mut matcher: SubscriptionMatcher) -> Result<(), SubscriptionError> {
+        // Everything confirmed before the subscription started is either delivered by the
+        // history read or lies before the start position (a subscription without an explicit
+        // position starts at the latest confirmed event), so it is never taken from the
+        // broadcast, which may replay older events to the first subscriber.
+        let start_watermarks: HashMap<PartitionId, u64> = self
+            .watermarks
+            .iter()
+            .map(|(partition_id, watermark)| (*partition_id, watermark.get()))
+            .collect();
+
         self.read_history(&mut matcher).await?;
 
         loop {
             match self.broadcast_rx.recv().await {
                 Ok(record) => {
-                    if matcher.has_seen(&record) {
+                    let before_start = start_watermarks
+                        .get(&record.partition_id)
+                        .is_some_and(|watermark| record.partition_sequence < *watermark);
+                    if before_start || matcher.has_seen(&record) {
                         continue;
                     }
 
